@@ -1348,6 +1348,11 @@ def _run(ctx):
     corpus_stream(ctx)
     stream_merge(ctx, 800 if quick else 30000)
     stream_merge_partial(ctx, 60 if ctx.tier == 'quick' else 1500)
+    # rotated meshes (columns equal only up to rounding noise) and distinct points closer than the tolerance: shared points
+    # are the bit-identical ones (statement-level oracle only; these coordinates are outside the exact model's lattice)
+    from fieldcompare.mesh import merge as _merge
+    from .meshfam import merge_geometry_stream
+    merge_geometry_stream(ctx, 60 if ctx.tier == 'quick' else 1500, _merge)
     stream_pfiles(ctx, 150 if quick else 3000, 50 if quick else 1000)
     refinement_ties(ctx, 300 if quick else 5000)
     stream_smerge(ctx, 3 if quick else 4)
